@@ -731,7 +731,7 @@ class C13Machine(TraceMachine):
 
 
 def run(ctx):
-    run_trace_machine(ctx, C13Machine, ctx.n(quick=70, thorough=1500), 15)
+    run_trace_machine(ctx, C13Machine, ctx.n(quick=100, thorough=1500), 15)
 
 
 def replay(case, ctx):
